@@ -3,7 +3,7 @@ CLAIM = ("Presentation order and independence of members: the real reader + basi
          "(next/read/check/extract/extract-as/is-fake, one decode and one extract per entry) over abstract members; every lha_reader_next_file result is "
          "compared with a reference model of the documented order (re-presented directory at the first later entry outside it / at end of input per policy, "
          "never under the plain policy; deferred symlinks last, longest path first, once each; NULL forever after the end), whatever the caller did with "
-         "other members and whatever the decoder and arch layer returned; basic-reader position accounting (skip of exactly the unread remainder).")
+         "other members and whatever the decoder and arch layer returned (general histories over <= 2 members, and a directed family of 3 directory members incl. sibling sub-directories with 6 next/extract operations); basic-reader position accounting (skip of exactly the unread remainder).")
 ASSUMPTIONS = ["thread interleavings: decided by the solver only on the decode path at the smallest bound (threads.decode2: two threads, one member of one byte each, all interleavings); beyond that the claim for concurrent readers rests on the absence of shared mutable library state (argument)",
                "members are abstract headers served by a stubbed parser; decoders are stubs with arbitrary results"]
 from C13 import HARNESSES as _C13H
